@@ -299,9 +299,11 @@ func filterDiff(pb []byte, files []string) []byte {
 // it, in parallel. seeded: writes seeded/MATRIX.md and caught_by in each meta.json, exit 1 if a
 // change is not reported by the check of its own property. benign: exit 1 on any alarm.
 func cmdMatrix(args []string) int {
-	kind, repo, verif := "seeded", "/repo", "/verif"
+	kind, repo, verif, match := "seeded", "/repo", "/verif", ""
 	for i := 0; i+1 < len(args); i += 2 {
 		switch args[i] {
+		case "-match":
+			match = args[i+1]
 		case "-kind":
 			kind = args[i+1]
 		case "-repo":
@@ -312,6 +314,15 @@ func cmdMatrix(args []string) int {
 	}
 	patches, _ := filepath.Glob(filepath.Join(verif, kind, "*", "patch.diff"))
 	sort.Strings(patches)
+	if match != "" {
+		var sel []string
+		for _, pf := range patches {
+			if strings.Contains(filepath.Base(filepath.Dir(pf)), match) {
+				sel = append(sel, pf)
+			}
+		}
+		patches = sel
+	}
 	var ids []string
 	for k := range props {
 		ids = append(ids, k)
@@ -450,7 +461,9 @@ func cmdMatrix(args []string) int {
 		fmt.Fprintf(&md, "| %s | %s | %s |\n", name, prop, r)
 		fmt.Printf("%s: %s\n", name, r)
 	}
-	os.WriteFile(filepath.Join(verif, kind, "MATRIX.md"), []byte(md.String()), 0o644)
+	if match == "" {
+		os.WriteFile(filepath.Join(verif, kind, "MATRIX.md"), []byte(md.String()), 0o644)
+	}
 	fmt.Printf("%d %s changes x %d checks\n", len(patches), kind, len(ids))
 	return exit
 }
